@@ -82,9 +82,7 @@ func checkCleanerConc(c CleanCase, o *vcore.Obs) error {
 		return fmt.Errorf("the sync loop's notification to the cleaner (SetCommitted) did not return within 5 s - the cleaner keeps its lock:\n%s", stuck("lightningstream/"))
 	}
 	cancel()
-	select {
-	case <-runDone:
-	case <-time.After(5 * time.Second):
+	if !waitChan(runDone, 5*time.Second) {
 		return fmt.Errorf("the cleaner's Run did not return within 5 s of cancellation:\n%s", stuck("lightningstream/"))
 	}
 	nFailed := 0
